@@ -403,7 +403,9 @@ func TestC19AfterFailedSends(t *testing.T) {
 			var peers []*netsim.Peer
 			var hist []string
 			t00 := time.Now()
-			logf := func(f string, a ...any) { hist = append(hist, fmt.Sprintf("+%v ", time.Since(t00))+fmt.Sprintf(f, a...)) }
+			logf := func(f string, a ...any) {
+				hist = append(hist, fmt.Sprintf("+%v ", time.Since(t00))+fmt.Sprintf(f, a...))
+			}
 			defer func() {
 				_ = w.conn.Close()
 				for _, p := range peers {
